@@ -15,6 +15,8 @@ explorer-only fields (never in gen_cases; C04 uses them for the adversary):
                 pwd_b, helloa_b, hellob_b   B's view of password / hello messages
                 val_fail, val_code    the val_fail-th certificate validator call answers val_code
                 act='flip' (act_i, act_j, act_m) | 'subst' (act_i, act_data): alteration of message M<act_i> in transit
+sweep fields:   (sweep_cases only) sweep = kind, sweep_who = party: raw_kc (flags outside the protocol's domain), rng_null, params_l
+                (level field of bign_params), or an inadmissible own certificate; the documented error comes back from Start
 result:         ret (first non-zero step result or 0), keyA, keyB (b'' when the party did not finish), msgs (all
                 messages concatenated), mlens, steps ("A.Step3=0x0" ...), useda/usedb (tape octets consumed)
 reference:      ref/bake.py for BMQV / BSTS / BPACE (bonus oracle: keys, every message, tape consumption); BAUTH has no
@@ -60,7 +62,9 @@ class Party:
         if r:
             raise RuntimeError('bignParamsStd failed: %#x' % r)
         g, st, self.tape = vf.make_tape(A, c['tape' + low])
-        kca, kcb = flags(c)
+        kca, kcb = c.get('raw_kc') or flags(c)
+        if c.get('params_l') is not None and c.get('sweep_who', 'B') == who:
+            self.params.set(int(c['params_l']).to_bytes(8, 'little'), 0)          # the l field of bign_params
         self.set = A.buf(ctypes.sizeof(Settings), fill)
         S = Settings.from_address(self.set.addr)
         S.kca, S.kcb = kca, kcb
@@ -69,6 +73,8 @@ class Party:
         S.helloa = self._h[0].addr if ha is not None else 0; S.helloa_len = len(ha) if ha is not None else 0
         S.hellob = self._h[1].addr if hb is not None else 0; S.hellob_len = len(hb) if hb is not None else 0
         S.rng = g; S.rng_state = st.addr
+        if c.get('rng_null') and c.get('sweep_who', 'B') == who:
+            S.rng = 0
         self.val = L.addr('vh_c04_certval')
         if c['proto'] == 'BPACE':
             self.pwd = view('pwd')
@@ -260,7 +266,17 @@ def _ref_run(c):
     msgs = [r[k] for k in ('M1', 'M2', 'M3', 'M4') if r.get(k)]
     return r, msgs
 
+SWEEP_RET = {'kc': E['BAD_INPUT'], 'rng': E['BAD_RNG'], 'params': E['BAD_PARAMS'], 'cert': E['BAD_CERT']}
+
+def _ref_sweep(c):
+    return {'ret': SWEEP_RET[c['sweep']]}
+
+def _ref_bauth(c):
+    return _ref_sweep(c) if c.get('sweep') else None
+
 def _ref_dialogue(c):
+    if c.get('sweep'):
+        return _ref_sweep(c)
     x = _ref_run(c)
     if x is None:
         return None
@@ -277,17 +293,47 @@ def _ref_drivers(c):
     return {'ret': 0, 'retA': 0, 'retB': 0, 'keyA': r['keya'], 'keyB': r['keyb'], 'wrA': b''.join(fa), 'wrB': b''.join(fb), 'keyS': r['keya']}
 
 def _derived(case, res):
-    return [(k, res[k]) for k in ('keyA', 'keyB') if res.get(k)]
+    """C15 needles beyond the inputs: the agreed key and, from the reference model, the implicit-signature multipliers sa, sb"""
+    out = [(k, res[k]) for k in ('keyA', 'keyB') if res.get(k)]
+    if case['proto'] in ('BMQV', 'BSTS') and not case.get('sweep') and res.get('ret') == 0:
+        try:
+            r, _ = _ref_run(case)
+            out += [('sa', le(case['l'], r['sa'])), ('sb', le(case['l'], r['sb']))]
+        except Exception:
+            pass
+    return out
 
 for _p, _n in (('BMQV', 'bake.BMQV'), ('BSTS', 'bake.BSTS'), ('BPACE', 'bake.BPACE'), ('BAUTH', 'btok.BAUTH')):
-    _f = reg(Composite(_n, _impl_dialogue, _ref_dialogue if _p != 'BAUTH' else None, group='bake',
-                       secrets=('pwd',) if _p == 'BPACE' else ('da', 'db')))
+    _f = reg(Composite(_n, _impl_dialogue, _ref_dialogue if _p != 'BAUTH' else _ref_bauth, group='bake',
+                       secrets=('pwd', 'tapea', 'tapeb') if _p == 'BPACE' else ('da', 'db', 'tapea', 'tapeb')))
     _f.faultable = True
     _f.derived = _derived
 for _p in ('BMQV', 'BSTS', 'BPACE'):
-    _f = reg(Composite('bake.%sRun' % _p, _impl_run, _ref_drivers, group='bake', secrets=('pwd',) if _p == 'BPACE' else ('da', 'db')))
+    _f = reg(Composite('bake.%sRun' % _p, _impl_run, _ref_drivers, group='bake',
+                       secrets=('pwd', 'tapea', 'tapeb') if _p == 'BPACE' else ('da', 'db', 'tapea', 'tapeb')))
     _f.faultable = True
     _f.derived = _derived
+
+# bakeKDF (6.1.3) and bakeSWU (6.2.3): the two algorithms under the protocols
+reg(cat.Fn('bakeKDF', [('out', 'key', 32), ('in', 'secret'), ('len', 'secret'), ('in', 'iv'), ('len', 'iv'), ('val', 'num')],
+           lambda c: {'ret': 0, 'key': RK.kdf(c['secret'], c['iv'], c['num'])}, group='bake', secrets=('secret',)))
+
+def _impl_swu(lib, c, A, fill):
+    l = c['l']
+    params = A.buf(336, fill)
+    lib.err('bignParamsStd', params, A.buf(OID[l].encode() + b'\0'))
+    if c.get('params_l') is not None:
+        params.set(int(c['params_l']).to_bytes(8, 'little'), 0)
+    pt = A.buf(l // 2, fill)
+    r = lib.err('bakeSWU', pt, params, A.buf(c['msg']))
+    return {'ret': r, 'pt': pt.get() if r == 0 else b''}
+def _ref_swu(c):
+    if c.get('params_l') is not None:
+        return {'ret': E['BAD_PARAMS']}
+    return {'ret': 0, 'pt': RK.swu(c['l'], c['msg'])}
+_f = reg(Composite('bake.SWU', _impl_swu, _ref_swu, group='bake'))
+_f.faultable = True
+
 NAME = {'BMQV': 'bake.BMQV', 'BSTS': 'bake.BSTS', 'BPACE': 'bake.BPACE', 'BAUTH': 'btok.BAUTH'}
 
 # ------------------------------------------------------------------ value material (computed with the reference models)
@@ -464,5 +510,45 @@ def run_cases(tier):
                 out.append((nm, base_case(proto, l, 1, 1, hs[0], tapea=le(l, ua), tapeb=le(l, ub), keys=(da, db))))
     return out
 
+def algo_cases(tier):
+    out = []
+    for sl in (0, 1, 31, 32, 33, 64):
+        for il in (0, 1, 16, 33):
+            for num in (0, 1, 2, 255, 256, 2 ** 32 - 1, 2 ** 64 - 1):
+                if tier == 'quick' and (sl, il) not in ((0, 0), (32, 16), (33, 33), (64, 1)) and num not in (0, 1):
+                    continue
+                out.append(('bakeKDF', dict(secret=vf.filler('c04.kdf.s', sl), iv=vf.filler('c04.kdf.i', il), num=num)))
+    for l in (128, 192, 256):
+        no = l // 4
+        msgs = [bytes(no), b'\xff' * no, bytes([1]) + bytes(no - 1), bytes(no - 1) + b'\x80'] + [vf.filler('c04.swu%d' % i, no) for i in range(4 if tier == 'quick' else 32)]
+        out += [('bake.SWU', dict(l=l, msg=m)) for m in msgs]
+    return out
+
 def gen_cases(tier):
-    return honest_cases(tier) + run_cases(tier)
+    return honest_cases(tier) + run_cases(tier) + algo_cases(tier)
+
+def sweep_cases(tier):
+    """arguments outside the documented domain of the Start functions (bake.h / btok.h \\expect{ERR_...} lines); the reference
+    returns the documented code"""
+    out = []
+    for l in (128, 256):
+        ps, Ecv, G, q, no = ctx(l)
+        for proto in ('BMQV', 'BSTS', 'BPACE', 'BAUTH'):
+            nm = NAME[proto]
+            b = base_case(proto, l)
+            for who in 'BA':
+                out.append((nm, dict(b, sweep='rng', rng_null=1, sweep_who=who)))
+                for pl in (0, 64, 127, 129, 257, 512):
+                    out.append((nm, dict(b, sweep='params', params_l=pl, sweep_who=who)))
+            bad_kc = {'BSTS': [(1, 0), (0, 1), (0, 0)], 'BAUTH': [(0, 1), (0, 0)]}.get(proto, [])
+            for kc in bad_kc:
+                out.append((nm, dict(b, sweep='kc', raw_kc=list(kc))))
+            if proto != 'BPACE':
+                Q = b['certb'][-2 * no:]
+                x, y = int.from_bytes(Q[:no], 'little'), int.from_bytes(Q[no:], 'little')
+                for cb in (Q[1:], b'Bob' + le(l, x) + le(l, (y + 1) % ps['p']), b'Bob' + le(l, ps['p']) + le(l, y), b'Bob' + le(l, x) + le(l, ps['p']),
+                           b'Bob' + bytes(2 * no)):
+                    out.append((nm, dict(b, sweep='cert', certb=cb)))
+    for pl in (0, 64, 129, 257):
+        out.append(('bake.SWU', dict(l=128, msg=bytes(32), params_l=pl)))
+    return out
